@@ -169,6 +169,26 @@ func (c *c09Conn) SetDeadline(t time.Time) error      { return nil }
 func (c *c09Conn) SetReadDeadline(t time.Time) error  { return nil }
 func (c *c09Conn) SetWriteDeadline(t time.Time) error { return nil }
 
+// c09Shape classifies how a head ends: the blank line (CRLF or bare LF) and the end of the
+// line before it (none = the start line is directly followed by the blank line).
+func c09Shape(rem []byte) string {
+	n := len(rem)
+	blank, k := "LF", n-1
+	if n >= 2 && rem[n-2] == '\r' {
+		blank, k = "CRLF", n-2
+	}
+	prev := "LF"
+	if k >= 2 && rem[k-2] == '\r' {
+		prev = "CRLF"
+	}
+	lines := bytes.Count(rem, []byte("\n"))
+	first := "start-line"
+	if lines > 2 {
+		first = "header-line"
+	}
+	return fmt.Sprintf("blank-line=%s,%s-before-it-ends-in=%s", blank, first, prev)
+}
+
 type c09NoLog struct{}
 
 func (c09NoLog) Printf(string, ...any) {}
@@ -208,6 +228,19 @@ func TestVerifC09HeadDelim(t *testing.T) {
 	}
 	var conts [][]string
 	evals, nontriv, heads := 0, 0, 0
+	emitted := map[string]int{}
+	counts := map[string]int{}
+	// one record per distinct key (needmore: per parser and head-ending shape; the others per
+	// exact head, at most 40 of each kind), everything is counted
+	viol := func(kind, key, detail string, c vfRec) {
+		counts[kind]++
+		if emitted[key] > 0 || (kind != "needmore" && emitted["#"+kind] >= 40) {
+			return
+		}
+		emitted[key]++
+		emitted["#"+kind]++
+		vfViol(key, detail, c)
+	}
 	classes := map[string]int{}
 	startLine := map[string]string{"request": "GET /c09 HTTP/1.0", "response": "HTTP/1.1 200", "server": "GET /c09 HTTP/1.0"}
 	nextLine := map[string]string{"request": "GET /next HTTP/1.0", "response": "HTTP/1.1 204", "server": "GET /next HTTP/1.0"}
@@ -271,7 +304,7 @@ func TestVerifC09HeadDelim(t *testing.T) {
 			for _, r := range all {
 				if r.o.Class == "waits" {
 					waited = true
-					vfViol("needmore:"+key, fmt.Sprintf("%s parser: head %q is complete (blank line under fasthttp's own line rule) but more input was requested (continuation %q, split=%v)",
+					viol("needmore", "needmore:"+parser+":"+c09Shape(rem), fmt.Sprintf("%s parser: head %q is complete (blank line under fasthttp's own line rule) but more input was requested (continuation %q, split=%v)",
 						parser, head, r.cont, r.split), cas())
 					break
 				}
@@ -284,7 +317,7 @@ func TestVerifC09HeadDelim(t *testing.T) {
 					same := a.Class == b.Class && a.Consumed == b.Consumed && fmt.Sprint(a.Fields) == fmt.Sprint(b.Fields)
 					if !same {
 						differ = true
-						vfViol("cont-dep:"+key, fmt.Sprintf("%s parser: head %q gives %s when followed by %q but %s when followed by %q (split=%v)",
+						viol("cont-dep", "cont-dep:"+key, fmt.Sprintf("%s parser: head %q gives %s when followed by %q but %s when followed by %q (split=%v)",
 							parser, head, a, all[0].cont, b, r.cont, r.split), cas())
 						break
 					}
@@ -301,12 +334,12 @@ func TestVerifC09HeadDelim(t *testing.T) {
 					sort.Strings(got)
 					sort.Strings(want)
 					if o.Class != "accept" || fmt.Sprint(got) != fmt.Sprint(want) || (parser != "server" && o.Consumed != len(head)) {
-						vfViol("verdict:"+key, fmt.Sprintf("%s parser: well-formed head %q: reference accepts with fields %q consuming %d bytes, got %s",
+						viol("verdict", "verdict:"+key, fmt.Sprintf("%s parser: well-formed head %q: reference accepts with fields %q consuming %d bytes, got %s",
 							parser, head, wantFields, len(head), o), cas())
 					}
 				case "reject":
 					if o.Class != "reject" {
-						vfViol("verdict:"+key, fmt.Sprintf("%s parser: head %q must be rejected (bytes glued to the start line / header line without name or colon), got %s",
+						viol("verdict", "verdict:"+key, fmt.Sprintf("%s parser: head %q must be rejected (bytes glued to the start line / header line without name or colon), got %s",
 							parser, head, o), cas())
 					}
 				}
@@ -319,6 +352,9 @@ func TestVerifC09HeadDelim(t *testing.T) {
 	extra := vfRec{"heads": heads, "continuations": len(conts)}
 	for k, n := range classes {
 		extra["outcome_"+k] = n
+	}
+	for k, n := range counts {
+		extra["violating_heads_"+k] = n
 	}
 	vfStat(evals, nontriv, extra)
 	vfDone()
